@@ -894,7 +894,10 @@ impl<'a> Gen<'a> {
                 }
             } else if r < 90 && !self.arrs.is_empty() {
                 let a = *self.rng.pick(&self.arrs.clone());
-                let i = self.index(ARR_LEN, true);
+                // a computed index on the destination leaves little room for the right-hand side
+                // ("too complex"): offered at a third of the rate of computed indexes in operands
+                let av = self.rng.chance(1, 3);
+                let i = self.index(ARR_LEN, av);
                 LV::Idx(a, Box::new(i))
             } else if !self.ptrs.is_empty() && self.fc.y_lt > 0 && self.fc.y_lt <= ARR_LEN {
                 LV::PtrIdx(self.ptrs[0], Box::new(Expr::Lv(LV::Y)))
@@ -1344,6 +1347,10 @@ impl<'a> Gen<'a> {
         let e = loop {
             let c = self.leaf8();
             if self.has_signed(&c) {
+                continue;
+            }
+            // a constant controlling expression is refused ("partially implemented"): offered rarely
+            if self.const_val(&c).is_some() && !self.rng.chance(1, 16) {
                 continue;
             }
             match &c {
